@@ -469,6 +469,8 @@ pub struct SymBattery {
     pub hs_is_diagonal: bool,
     pub shift: Vec<f64>,      // combined_ds_shift(step_z = x, step_s = y, sigma_mu)
     pub offset: Vec<f64>,     // Δs_from_Δz_offset(ds = x)
+    pub dual_wz: Vec<f64>,    // W z after update_scaling(s, z, mu = 7.5, ScalingStrategy::Dual): symmetric cones ignore the strategy
+    pub dual_hs_x: Vec<f64>,  // mul_Hs x after that update
     pub w_acc: Vec<f64>,      // mul_W(N, out = y, x, -1, 1):  y - W x
     pub winv_acc: Vec<f64>,   // mul_Winv(T, out = y, x, 2, -1):  2 W^-T x - y
     pub expanded_x: Vec<f64>, // sparse-expanded second-order cone: eta^2 (D + uu' - vv') x, the block the KKT matrix holds (else empty)
@@ -530,6 +532,21 @@ pub fn sym_cone_battery(
             out.offset = v(&mut |o| { let mut w = vec![0.0; n]; c.Δs_from_Δz_offset(o, x, &mut w, z) });
         }};
     }
+    // the scaling of a symmetric cone does not depend on the strategy (nor on mu): what the solver asks for when a
+    // nonsymmetric cone elsewhere in the problem has forced the dual strategy
+    macro_rules! dual {
+        ($c:expr) => {{
+            let c = $c;
+            c.update_scaling(s, z, 7.5, ScalingStrategy::Dual);
+            let mut o = vec![0.0; n];
+            c.mul_W(MatrixShape::N, &mut o, z, 1.0, 0.0);
+            out.dual_wz = o;
+            let mut o = vec![0.0; n];
+            let mut w = vec![0.0; n];
+            c.mul_Hs(&mut o, x, &mut w);
+            out.dual_hs_x = o;
+        }};
+    }
     // the same cone object put back to the identity scaling, as at the start of a second solve
     macro_rules! ident {
         ($c:expr) => {{
@@ -558,16 +575,17 @@ pub fn sym_cone_battery(
         }
     };
     match make_cone(cone) {
-        SupportedCone::NonnegativeCone(mut c) => { run!(&mut c, true); ident!(&mut c); }
+        SupportedCone::NonnegativeCone(mut c) => { run!(&mut c, true); dual!(&mut c); ident!(&mut c); }
         SupportedCone::SecondOrderCone(mut c) => {
             run!(&mut c, true);
             out.expanded_x = expanded(&c);
+            dual!(&mut c);
             ident!(&mut c);
             out.ident_expanded_x = expanded(&c);
         }
         // (the PSD cone does not implement the general Jordan division: it is never needed)
         #[cfg(feature = "sdp")]
-        SupportedCone::PSDTriangleCone(mut c) => { run!(&mut c, false); ident!(&mut c); }
+        SupportedCone::PSDTriangleCone(mut c) => { run!(&mut c, false); dual!(&mut c); ident!(&mut c); }
         _ => {}
     }
     out
